@@ -473,6 +473,99 @@ func (o *OracleC13) onceProbes(c *Chain, b *BlockCtx, v *View) []*Violation {
 			}
 		}
 	}
+	// ---- per group: a voter's reward is pot/groups x (its recorded weight in the group) / (the group's counter total over
+	// all rounds). If the recorded weights of a group add up to more than the counters, that group's claims exceed the
+	// group's part of the pot.
+	for _, root := range o.t.ids() {
+		if !executed[root] || o.t.rootOf[root] != root {
+			continue
+		}
+		key := fmt.Sprintf("grp|%d|%d", root, len(voters))
+		if o.probed[key] >= 1 {
+			continue
+		}
+		o.probed[key]++
+		recRep, recTok := new(big.Int), new(big.Int)
+		for _, vr := range voters {
+			if o.t.rootOf[vr.ID] == root {
+				recRep.Add(recRep, vr.Rec.ReporterPower.BigInt())
+				recTok.Add(recTok, vr.Rec.TokenholderPower.BigInt())
+			}
+		}
+		cntRep, cntTok := new(big.Int), new(big.Int)
+		okCnt := true
+		for _, id := range rounds[root] {
+			cnt, err := app.DisputeKeeper.VoteCountsByGroup.Get(v.ctx, id)
+			if err != nil {
+				okCnt = false
+				break
+			}
+			for _, x := range []uint64{cnt.Reporters.Support, cnt.Reporters.Against, cnt.Reporters.Invalid} {
+				cntRep.Add(cntRep, new(big.Int).SetUint64(x))
+			}
+			for _, x := range []uint64{cnt.Tokenholders.Support, cnt.Tokenholders.Against, cnt.Tokenholders.Invalid} {
+				cntTok.Add(cntTok, new(big.Int).SetUint64(x))
+			}
+		}
+		if !okCnt {
+			continue
+		}
+		o.count("group_pot_checks")
+		if recRep.Cmp(cntRep) > 0 && cntRep.Sign() > 0 {
+			out = append(out, o.v(b.H, "group-pot", "group-claims-exceed-group-pot:reporters", "dispute %d: the reporter-group weights recorded for the voters add up to %s, the group total the rewards are divided by is %s: the group's claims exceed its part of the pot", root, recRep, cntRep))
+			return out
+		}
+		if recTok.Cmp(cntTok) > 0 && cntTok.Sign() > 0 {
+			out = append(out, o.v(b.H, "group-pot", "group-claims-exceed-group-pot:tokenholders", "dispute %d: the token-holder weights recorded for the voters add up to %s, the group total the rewards are divided by is %s: the group's claims exceed its part of the pot", root, recTok, cntTok))
+			return out
+		}
+	}
+	// ---- the voters' pot: on one branch of the state every voter of an executed dispute claims; together with what was
+	// claimed in real blocks the payouts never exceed the pot
+	for _, root := range o.t.ids() {
+		if !executed[root] || o.t.rootOf[root] != root {
+			continue
+		}
+		ids := append([]uint64(nil), rounds[root]...)
+		sort.Slice(ids, func(i, j int) bool { return ids[i] < ids[j] })
+		last := ids[len(ids)-1]
+		d, ok := o.t.cur[last]
+		if !ok || d.V == nil || !d.V.Executed {
+			continue
+		}
+		key := fmt.Sprintf("pot|%d|%d", root, len(voters))
+		if o.probed[key] >= 1 {
+			continue
+		}
+		o.probed[key]++
+		shared, _ := v.ctx.CacheContext()
+		paid := new(big.Int)
+		if o.potPaid[root] != nil {
+			paid.Set(o.potPaid[root])
+		}
+		seen := map[string]bool{}
+		n := 0
+		for _, vr := range voters {
+			if o.t.rootOf[vr.ID] != root || seen[string(vr.Voter)] {
+				continue
+			}
+			seen[string(vr.Voter)] = true
+			before := app.BankKeeper.GetBalance(shared, vr.Voter, Denom).Amount
+			err := probeMsg(shared, func(x sdk.Context) error {
+				_, e := dms.ClaimReward(x, &disputetypes.MsgClaimReward{CallerAddress: vr.Voter.String(), DisputeId: last})
+				return e
+			})
+			if err == nil {
+				paid.Add(paid, app.BankKeeper.GetBalance(shared, vr.Voter, Denom).Amount.Sub(before).BigInt())
+				n++
+			}
+		}
+		o.count("probe_voter_pot_drains")
+		if paid.Cmp(d.D.VoterReward.BigInt()) > 0 {
+			out = append(out, o.v(b.H, "once-probe", "voter-pot-overdrawn", "dispute %d: when every voter claims (%d claims on the state after block %d, plus what was claimed before) the voters receive %s, the pot is %s", last, n, b.H, paid, d.D.VoterReward))
+			return out
+		}
+	}
 	// ---- entitlement, in sequence: on ONE branch of the state every payer record of an executed dispute that did not
 	// end against the disputer is withdrawn, one payer after the other; each of them must succeed (a payer's claim
 	// must not depend on who claimed before)
